@@ -21,13 +21,71 @@ CHECKS = {
              '2 peers; power sums far from int64 overflow; negative index handled under C08.'),
 }
 
+TM_NOTE = ('Trusted: TLC, the TLA+ value parser, the projection in gemmill/consensus/pbft/verif_shim.go + harness/csim, '
+           'ed25519. The reactor gossip layer is replaced by the scheduler; small scope (<=4 validators, rounds<=3 in '
+           'exhaustive runs, heights<=3); sign-bytes injectivity assumed.')
+CHECKS.update({
+    'C01': dict(
+        engine='csim',
+        technique='TLA+ spec Tendermint.tla (pbft state machine as implemented, Byzantine adversary, crash/restart) model-checked '
+                  'with TLC; TLC counterexamples-to-reachability and simulated behaviours replayed on real '
+                  'pbft.ConsensusState nodes with full state comparison after every action; real block stores compared',
+        level=('model_checking',
+               'Agreement/LinearChain are TLC invariants of the transcribed state machine over all interleavings within the '
+               'bounds (Byzantine budget 0-2 exhaustively, unbounded in simulation); conformance of the code to the spec is '
+               'established by replaying every generated behaviour step by step on real nodes (WAL, signer file, LevelDB '
+               'stores) and comparing ~20 state components per node per step; scripted schedules that once forked the real '
+               'code are replayed as regressions.', 'DESIGN.md §4 C01, §9'),
+        note=TM_NOTE),
+    'C04': dict(
+        engine='csim',
+        technique='TLA+ spec Tendermint.tla with the locking rules evaluated at every vote emission (TLC invariants + action '
+                  'properties); witness behaviours for lock/unlock/relock replayed on real nodes; executions of real '
+                  'goroutines recorded by hooks and validated against the spec by TLC (trace validation)',
+        level=('model_checking',
+               'PrevoteRespectsLock / PrecommitOnlyWithOwnPolka / ProposeLockedBlock are checked inside the transcribed handlers, '
+               'LockJustified and UnlockOnlyOnLaterPolka on every reachable state/transition; the real node must emit exactly '
+               'the votes the guarded spec steps emit, both in replay (spec->code) and in trace validation (code->spec).',
+               'DESIGN.md §4 C04, §9'),
+        note=TM_NOTE),
+    'C07': dict(
+        engine='csim',
+        technique='TLA+ spec Tendermint.tla with Crash/CrashTorn/Restart (Restart = fold of the handlers over the WAL); '
+                  'behaviours with crashes at every position and torn last records replayed on real nodes (real WAL files '
+                  'cut inside the last line, real catchupReplay); real OnStart+receiveRoutine probes on copied directories',
+        level=('model_checking',
+               'TLC checks ReplayRestoresVotes, NoEquivocationSent and Agreement with crashes and torn records; on the real node '
+               'every restart is compared with the spec state and, independently, with the node\'s own pre-crash projection; '
+               'a real Start() on a clone of the directory must agree with the stepped restart.', 'DESIGN.md §4 C07, §9'),
+        note=TM_NOTE + ' Process-crash model (no power-loss reordering of writes).'),
+    'C12': dict(
+        engine='csim',
+        technique='TLA+ spec Tendermint.tla under partial synchrony and weak fairness: TLC checks the temporal property '
+                  'EventuallyDecide and deadlock-freedom; adversarial prefixes replayed on real nodes followed by a fair drain '
+                  'that must decide; executions of real goroutines (real receiveRoutine/ticker) validated against the spec by TLC',
+        level=('model_checking',
+               'Bounded liveness: TLC liveness checking on the small configurations (also with a crash); every spec-level wedge '
+               'is replayed and drained on real nodes before it counts; real-goroutine runs must reach the target height and '
+               'their recorded traces must be behaviours of the spec.', 'DESIGN.md §4 C12, §9'),
+        note=TM_NOTE + ' Liveness is bounded (rounds/heights); wall-clock dependent failures of the real-goroutine runs are '
+                       'reported as inconclusive, never as violations.'),
+})
+
 NOT_YET = 'not yet built: the specification for this property is planned in DESIGN.md §4 but no check is registered yet'
 NOT_APPLICABLE = {
     'C18': 'codec round-trip/robustness/injectivity are statements about pure functions over byte strings; there is no '
            'state machine for TLC to explore (DESIGN.md §5)',
 }
 
-HOOK_COMMITS = ['289b2e1']
+HOOK_COMMITS = []  # filled from `git -C /repo log --grep '^verif hook'` at generation time
+
+
+def hook_commits():
+    try:
+        out = subprocess.run(['git', '-C', '/repo', 'log', '--format=%h', '--grep=^verif hook'], stdout=subprocess.PIPE, text=True).stdout
+        return out.split()
+    except Exception:
+        return HOOK_COMMITS
 
 
 def main():
@@ -59,7 +117,7 @@ def main():
             'guard': 'verif',
             'enable': 'go build -tags verif (harness module replaces github.com/dappledger/AnnChain => /repo)',
             'baseline_off_cmd': 'cd /repo && GOFLAGS=-mod=mod GOPROXY=off GOSUMDB=off go test -json -vet=off -count=1 -timeout 25m ./...',
-            'source_commits': HOOK_COMMITS,
+            'source_commits': hook_commits(),
             'add_only': True,
         },
         'engines': [],
